@@ -64,25 +64,30 @@ func (t *token) rename(v string) {
 }
 
 func (t *token) Int() int {
-	if len(t.Text) > 2 && t.Text[:2] == "0x" {
-		v, err := strconv.ParseInt(t.Text[2:], 16, 0)
+	// the parser folds a unary minus into the literal's text: the sign is not part of the base prefix
+	text, sign := t.Text, 1
+	for len(text) > 0 && text[0] == '-' {
+		text, sign = text[1:], -sign
+	}
+	if len(text) > 2 && text[:2] == "0x" {
+		v, err := strconv.ParseInt(text[2:], 16, 0)
 		if err != nil {
 			panicf("error parsing hex: %v", err)
 		}
-		return int(v)
+		return sign * int(v)
 	}
-	if len(t.Text) > 1 && t.Text[0] == '0' {
-		v, err := strconv.ParseInt(t.Text[1:], 8, 0)
+	if len(text) > 1 && text[0] == '0' {
+		v, err := strconv.ParseInt(text[1:], 8, 0)
 		if err != nil {
 			panicf("error parsing octal: %v", err)
 		}
-		return int(v)
+		return sign * int(v)
 	}
-	v, err := strconv.Atoi(t.Text)
+	v, err := strconv.Atoi(text)
 	if err != nil {
 		panicf("error parsing int: %v", err)
 	}
-	return int(v)
+	return sign * int(v)
 }
 
 func (t *token) Unquote() string {
@@ -94,7 +99,11 @@ func (t *token) Unquote() string {
 }
 
 func (t *token) Float64() float64 {
-	v, err := strconv.ParseFloat(t.Text, 64)
+	text := t.Text
+	for len(text) > 1 && text[0] == '-' && text[1] == '-' { // a folded double negation
+		text = text[2:]
+	}
+	v, err := strconv.ParseFloat(text, 64)
 	if err != nil {
 		panicf("error parsing float: %v", err)
 	}
